@@ -256,6 +256,23 @@ func c02Main(r *engine.Run) {
 	}
 	r.Sample("pair", pairCase{A: star[len(star)/2].WKT, B: probes[0].WKT})
 	// affine images (exact ones and general-position float ones) on a fixed stride of the pair list
+	if r.Thorough() {
+		// 4×4 lattice: a fixed stride of all pairs of the ≤4-vertex polygons, segments and paths
+		l4 := Lattice4(universe.Identity)
+		n4 := len(l4)
+		const stride4 = 7
+		if r.Parallel(n4*n4/stride4, func(k int) {
+			kk := k * stride4
+			i, j := kk/n4, kk%n4
+			if i > j {
+				i, j = j, i
+			}
+			_ = kk
+			c02Pair(r, l4[i], l4[j], kk%4 == 0)
+		}) {
+			r.Bound(fmt.Sprintf("4×4 lattice alphabet (%d operands): every %d-th ordered pair", n4, stride4))
+		}
+	}
 	c02Affine(r, level)
 }
 
